@@ -16,7 +16,12 @@ Definition tie (I : interp) (ito : item) : interp :=
                 | _, _ => i_cmp I x y
                 end;
      i_partial_cmp := i_partial_cmp I;
-     i_user := i_user I |}.
+     i_user := i_user I;
+       i_size_of_self := i_size_of_self I;
+       i_clone := i_clone I;
+       i_clone_from := i_clone_from I;
+       i_into := i_into I;
+       i_default := i_default I |}.
 
 (** the fields of the operands are values of other types (opaque to this impl) *)
 Definition opaque (v : value) : bool := match v with VData _ _ => false | _ => true end.
@@ -49,8 +54,8 @@ Qed.
 Lemma spec_cmp_tie I ito c a b :
   fields_opaque a = true -> spec_cmp (tie I ito) c a b = spec_cmp I c a b.
 Proof.
-  intros Ha. destruct a as [| | | | | |va xs| | | |]; try discriminate Ha.
-  destruct b as [| | | | | |vb ys| | | |]; try reflexivity.
+  intros Ha. destruct a as [| | | | | |va xs| | | | |]; try discriminate Ha.
+  destruct b as [| | | | | |vb ys| | | | |]; try reflexivity.
   cbn [spec_cmp]. cbn [fields_opaque] in Ha.
   destruct (oc_get va c) as [[da la]|]; [|reflexivity].
   destruct (oc_get vb c) as [[db lb]|]; [|reflexivity].
@@ -81,8 +86,8 @@ Proof.
     as [it [rest [Heq Hrun']]]. inversion Heq; subst it rest; clear Heq.
   rewrite (spec_cmp_tie I ito c a b Hop) in Hrun'.
   split; [exact Hrun'|]. rewrite Hsome, Hrun'.
-  destruct a as [| | | | | |va xs| | | |]; try discriminate Ha.
-  destruct b as [| | | | | |vb ys| | | |]; try discriminate Hb.
+  destruct a as [| | | | | |va xs| | | | |]; try discriminate Ha.
+  destruct b as [| | | | | |vb ys| | | | |]; try discriminate Hb.
   cbn [tie i_cmp]. rewrite Hrun.
   destruct (spec_cmp I c (VData va xs) (VData vb ys)) as [r|] eqn:Es; [reflexivity|].
   exfalso. cbn [ovalue_ok] in Ha, Hb. cbn [spec_cmp] in Es.
